@@ -16,7 +16,8 @@ From Coq Require Import ZArith QArith Qreals Rdefinitions List Bool.
 Import ListNotations.
 Require Import MV.Lib.Base MV.C17.Gen MV.C17.Model.
 Require Import MV.C17.Proofs_Gate MV.C17.Proofs_Border MV.C17.Proofs_Circle MV.C17.Proofs_Lap MV.C17.Proofs_Harmonic
-               MV.C17.Proofs_Max MV.C17.Proofs_Scatter MV.C17.Proofs_Cert MV.C17.Proofs.
+               MV.C17.Proofs_Max MV.C17.Proofs_Scatter MV.C17.Proofs_Cert MV.C17.Proofs MV.C17.Run MV.C17.Proofs_Scaled
+               MV.C17.Proofs_Run.
 Open Scope Z_scope.
 Open Scope Q_scope.
 
@@ -141,3 +142,21 @@ Theorem C17_fold_free_partial : forall fs use_cotan cot free bnd Ub Vb D NU NV,
   ((forall f, In f fs -> 0 < face_det p f) \/ (forall f, In f fs -> face_det p f < 0)).
 Proof. exact fold_free_partial. Qed.
 Print Assumptions C17_fold_free_partial.
+
+(* PARTIAL, about the per-run check itself: a case accepted by [check_ok] carries an exact solution of the model's
+   partitioned system and - where the property promises it and the exact orientation was evaluated - all triangles
+   of that exact solution have one strict orientation (the run evaluates the sign on D * positions; this theorem
+   transfers it to the positions).  This is a statement about each CHECKED case, not about all disks. *)
+Theorem C17_fold_free_checked_case_partial : forall c : tcase, check_ok c = true ->
+  let B := border_data c in
+  let Ub := map fst B in
+  let Vb := map snd B in
+  let T := lap_triplets (c_faces c) (c_cotan c) (c_cot c) in
+  let U := cert_values (k_D c) (k_NU c) in
+  let V := cert_values (k_D c) (k_NV c) in
+  let p := read0 (vertex_writes (o_free c) (o_bnd c) U V Ub Vb) in
+  is_solution_U T (o_free c) (o_bnd c) Ub Vb U /\ is_solution_V T (o_free c) (o_bnd c) Ub Vb V /\
+  (promised c (fun v => znth (tabulate (exact_vertex_map c) (c_nv c)) v zero2) = true -> k_exact_orient c = true ->
+   (forall f, In f (c_faces c) -> 0 < face_det p f) \/ (forall f, In f (c_faces c) -> face_det p f < 0)).
+Proof. exact check_ok_establishes. Qed.
+Print Assumptions C17_fold_free_checked_case_partial.
